@@ -227,9 +227,43 @@ def options_of(case):
     return None if case.get("opt") is None else {"opt": int(case["opt"])}
 
 
-def seed_for(case, i):
-    s = case["seed"]
+def seed_at(s, i):
     return None if s is None else s[i] if isinstance(s, list) else s + i
+
+
+def seed_for(case, i):
+    return seed_at(case["seed"], i)
+
+
+def opts_of(v):
+    return None if v is None else {"opt": int(v)}
+
+
+def midresets(case, si):
+    """explicit reset(seed, options) calls made just before step si"""
+    return (case.get("midresets") or {}).get(str(si), [])
+
+
+def snapshot(d):
+    """caller-owned dict of arrays / lists / ints -> (key order, value identities, deep copy)"""
+    import copy as _copy
+    return (list(d.keys()), [id(v) for v in d.values()], _copy.deepcopy(d))
+
+
+def unchanged(d, snap):
+    ks, ids, cp = snap
+    if list(d.keys()) != ks or [id(v) for v in d.values()] != ids:
+        return False
+    for k in ks:
+        a, b = d[k], cp[k]
+        if type(a) is not type(b):
+            return False
+        if isinstance(a, np.ndarray):
+            if a.dtype != b.dtype or a.shape != b.shape or not np.array_equal(a, b):
+                return False
+        elif a != b:
+            return False
+    return True
 
 
 # ------------------------------------------------------------------ reference: environments stepped alone
@@ -240,6 +274,11 @@ class Reference:
         self.env = ScriptedEnv(**params)
         self.obs, self.info = self.env.reset(seed=seed, options=options)
         self.resets = 1
+
+    def reset(self, seed, options=None):
+        self.obs, self.info = self.env.reset(seed=seed, options=options)
+        self.resets += 1
+        return self.obs, self.info
 
     def step(self, actions):
         obs, rew, term, trunc, info = self.env.step(actions)
@@ -258,6 +297,10 @@ def aorder(case):
 
 
 def env_params(case, i, e):
+    return dict(layout=e.get("layout", "C"), mixed_types=bool(case.get("mixed_types", False)), **_env_params(case, i, e))
+
+
+def _env_params(case, i, e):
     return dict(eid=i, nagents=case["nag"], lens=e["lens"], mode=e["mode"], leave=e.get("leave", {}),
                 kind=case["obs"], akind=case["akind"], unaligned=bool(e.get("unaligned", False)),
                 reversed_out=bool(e.get("reversed_out", False)), rich_info=bool(case.get("rich_info", False)),
@@ -358,13 +401,16 @@ class C12(vlib.Driver):
                     for a in rng.sample(range(nag), rng.randint(1, nag - 1)):     # at least one agent is there from the start
                         join[str(a)] = rng.randint(1, 3)
                 envs.append({"lens": lens, "mode": rng.choice(["term", "trunc", "mixed"]), "leave": leave,
-                             "reversed_out": rng.random() < 0.3, "join": join})
+                             "reversed_out": rng.random() < 0.3, "join": join, "layout": rng.choice(["C", "C", "F", "S"])})
             steps = rng.randint(6, 12) if quick else rng.randint(6, 14)
             cases.append({"kind": "vec", "obs": rng.choice(c12_env.OBS_KINDS) if rng.random() < 0.5 else rand_space(),
                           "akind": rng.choice(c12_env.ACT_KINDS),
                           "nag": nag, "copy": rng.random() < 0.6,
                           "seed": rng.choice([None, 0, 1, 7, 20, [rng.randrange(30) for _ in range(N)]]),
-                          "opt": rng.choice([None, 1, 6]), "rich_info": rng.random() < 0.25,
+                          "opt": rng.choice([None, 1, 6]), "rich_info": rng.random() < 0.25, "mixed_types": rng.random() < 0.3,
+                          "midresets": ({str(rng.randint(1, 5)): [{"seed": rng.choice([None, 2, 13]), "opt": rng.choice([None, 4])}]}
+                                        if rng.random() < 0.3 else {}),
+                          "bad_calls": [rng.randint(0, 5)] if rng.random() < 0.2 else [],
                           "envs": envs, "actions": actions(steps, nag, N), "aorder": perm(nag, rng.random() < 0.6)})
         # agents that join late: join before / at / after the episode end, joiner that also leaves, join at step 1
         for obs, (jn, lv_), copy in itertools.product(("vector", "dict") if quick else ("vector", "dict", "image", "tuple"),
@@ -375,6 +421,42 @@ class C12(vlib.Driver):
                     {"lens": [4, 1], "mode": "trunc", "leave": lv_, "join": jn}]
             cases.append({"kind": "vec", "obs": obs, "akind": "discrete", "nag": 3, "copy": copy, "seed": 5, "opt": 2,
                           "envs": envs, "actions": actions(8, 3, 3), "aorder": perm(3)})
+        # histories: explicit resets in the middle of episodes (also twice in a row, with / without seed and options),
+        # identical action batches in consecutive steps, rejected calls followed by further use, a second vector
+        # environment alive alongside, observation arrays that are Fortran-ordered / strided views, rewards / flags /
+        # info tags whose Python / numpy type varies, seeds float32 cannot represent (float64 / int64 spaces)
+        wide = {"str": "tuple", "members": [{"leaf": "box", "shape": [2, 3], "dtype": "float64"},
+                                            {"leaf": "box", "shape": [3, 1, 2], "dtype": "int64"},
+                                            {"leaf": "discrete", "shape": [], "dtype": "int64"}]}
+        rect = {"str": "dict", "members": [{"leaf": "box", "shape": [2, 3], "dtype": "float32"},
+                                           {"leaf": "box", "shape": [3, 2, 2], "dtype": "uint8"},
+                                           {"leaf": "multidiscrete", "shape": [2, 2], "dtype": "int64"}]}
+        wide_plain = {"str": "plain", "members": [{"leaf": "box", "shape": [2, 3], "dtype": "float64"}]}
+        wide_dict = {"str": "dict", "members": [{"leaf": "box", "shape": [3, 1, 2], "dtype": "int64"},
+                                                {"leaf": "box", "shape": [2], "dtype": "float64"}]}
+        wides = [wide, wide_plain, wide_dict]
+        hist_obs = ["vector", "image", "tuple", wide, rect, wide_plain, wide_dict]
+        for hi, (obs, layout, copy) in enumerate(itertools.product(hist_obs, ("F", "S", "C"), (True, False))):
+            if quick and not copy and layout == "C":
+                continue
+            big = any(obs is w for w in wides)
+            envs = [{"lens": [3, 2], "mode": "term", "leave": {}, "layout": layout},
+                    {"lens": [2], "mode": "mixed", "leave": {"1": 1} if hi % 2 else {}, "layout": layout, "reversed_out": hi % 3 == 0},
+                    {"lens": [4, 1], "mode": "trunc", "leave": {}, "layout": "C" if hi % 2 else layout}]
+            acts = actions(7, 2, 3)
+            acts[3] = [list(x) for x in acts[2]]                # identical batch twice in a row
+            mids = {"2": [{"seed": (2 ** 24 + 1) if big else 4, "opt": 3}],
+                    "5": [{"seed": None, "opt": None}, {"seed": None, "opt": None}] if hi % 2 else
+                         [{"seed": [2 ** 31 + 5, 2 ** 24 + 3, 6] if big else [8, 1, 5], "opt": None}, {"seed": 0, "opt": 0}]}
+            cases.append({"kind": "vec", "obs": obs, "akind": ["discrete", "box2", "md2", "dlist"][hi % 4], "nag": 2, "copy": copy,
+                          "seed": ((2 ** 24 + 1) if big else 0), "opt": None if hi % 2 else 5, "envs": envs, "actions": acts,
+                          "aorder": perm(2, hi % 2 == 0), "midresets": mids, "bad_calls": [1, 4], "shadow": hi % 3 != 1,
+                          "mixed_types": hi % 2 == 0, "rich_info": hi % 4 == 3})
+        for hi, (mode, lay) in enumerate(itertools.product(("term", "mixed"), ("F", "S"))):
+            cases.append({"kind": "wrap", "obs": [rect, "tuple"][hi % 2], "akind": "discrete", "nag": 2, "seed": 0, "opt": None,
+                          "env": {"lens": [2, 3], "mode": mode, "leave": {}, "layout": lay}, "mixed_types": True,
+                          "actions": [[x[0] for x in st] for st in actions(6, 2, 1)], "aorder": perm(2),
+                          "midresets": {"1": [{"seed": 3, "opt": 1}], "4": [{"seed": None, "opt": None}, {"seed": None, "opt": 2}]}})
         # other multiprocessing start methods (workers import c12_env themselves; ~8 s per run)
         for ctx, obs in ([("spawn", "dict")] if quick else [("spawn", "dict"), ("spawn", "image"), ("forkserver", "tuple"), ("forkserver", "vector")]):
             envs = [{"lens": [2], "mode": "trunc", "leave": {}}, {"lens": [3, 1], "mode": "term", "leave": {"1": 1}}]
@@ -430,12 +512,21 @@ class C12(vlib.Driver):
     def run_vec(self, case):
         N, nag, kind, akind = len(case["envs"]), case["nag"], case["obs"], case["akind"]
         fns = [make_env(env_params(case, i, e)) for i, e in enumerate(case["envs"])]
-        obs_out = {"reset": None, "steps": [], "error": None, "counters": None, "stale": [], "calls": None, "api": None}
+        obs_out = {"reset": None, "steps": [], "error": None, "counters": None, "stale": [], "calls": None, "api": None,
+                   "midresets": {}, "bad_calls": {}, "args_modified": [], "shadow": None}
         ve = AsyncPettingZooVecEnv(fns, copy=case["copy"], context=case.get("context"))
         handed = []
+        shadow = None
         try:
             try:
-                o, inf = ve.reset(seed=case["seed"], options=options_of(case))
+                if case.get("shadow"):      # a second, unrelated vector environment alive in the same process
+                    shadow = AsyncPettingZooVecEnv([make_env(dict(env_params(case, 7, case["envs"][0]), eid=7))], copy=True)
+                    shadow.reset(seed=99)
+                opts0 = options_of(case)
+                snap0 = None if opts0 is None else snapshot(opts0)
+                o, inf = ve.reset(seed=case["seed"], options=opts0)
+                if snap0 is not None and not unchanged(opts0, snap0):
+                    obs_out["args_modified"].append("reset:options")
                 obs_out["reset"] = {"obs": canon_vobs(kind, o), "info": canon_infos(inf)}
                 if case["copy"]:
                     handed.append((o, obs_out["reset"]["obs"], -1))
@@ -445,13 +536,43 @@ class C12(vlib.Driver):
                                       "get_eq_getitem": canon_vobs(kind, {"agent_0": o.get("agent_0")}) == canon_vobs(kind, {"agent_0": o["agent_0"]}),
                                       "keys": list(o.keys()), "items_keys": [k_ for k_, _ in o.items()],
                                       "n_values": len(list(o.values()))}
-                for si, step in enumerate(case["actions"]):
+                def build(step, n):
                     # the caller's dict may list the agents in any order: it is a map
                     if akind == "dlist":     # plain Python lists of ints instead of arrays
-                        acts = {f"agent_{a}": [int(step[a][e]) for e in range(N)] for a in aorder(case)}
-                    else:
-                        acts = {f"agent_{a}": np.stack([act_value(akind, step[a][e]) for e in range(N)]) for a in aorder(case)}
+                        return {f"agent_{a}": [int(step[a][e % N]) for e in range(n)] for a in aorder(case)}
+                    return {f"agent_{a}": np.stack([act_value(akind, step[a][e % N]) for e in range(n)]) for a in aorder(case)}
+
+                for si, step in enumerate(case["actions"]):
+                    for mr in midresets(case, si):      # explicit resets in the middle of the run
+                        mo = opts_of(mr.get("opt"))
+                        msnap = None if mo is None else snapshot(mo)
+                        o, inf = ve.reset(seed=mr["seed"], options=mo)
+                        obs_out["midresets"].setdefault(str(si), []).append({"obs": canon_vobs(kind, o), "info": canon_infos(inf)})
+                        if msnap is not None and not unchanged(mo, msnap):
+                            obs_out["args_modified"].append(f"reset@{si}:options")
+                    if si in (case.get("bad_calls") or []):
+                        # calls that must be rejected and leave the vector environment exactly as it was
+                        got = []
+                        for bad in (build(step, N + 1), {k_: v_ for k_, v_ in list(build(step, N).items())[:-1]} if nag > 1 else build(step, N + 2)):
+                            try:
+                                ve.step(bad)
+                                got.append("accepted")
+                            except _Timeout:
+                                raise
+                            except Exception as e_:
+                                got.append(type(e_).__name__)
+                        obs_out["bad_calls"][str(si)] = got
+                    acts = build(step, N)
+                    asnap = snapshot(acts)
                     o, r, te, tr, inf = ve.step(acts)
+                    if not unchanged(acts, asnap):
+                        obs_out["args_modified"].append(f"step@{si}:actions")
+                    if shadow is not None and si == 0:
+                        shadow.step({f"agent_{a}": np.stack([act_value(akind, 1)]) if akind != "dlist" else [1] for a in range(nag)})
+                    if shadow is not None and si == 1:
+                        shadow.close()
+                        shadow = None
+                        obs_out["shadow"] = "closed"
                     rec = {"obs": canon_vobs(kind, o), "rew": canon_vec(r), "term": canon_vec(te),
                            "trunc": canon_vec(tr), "info": canon_infos(inf)}
                     obs_out["steps"].append(rec)
@@ -459,7 +580,10 @@ class C12(vlib.Driver):
                         handed.append((o, rec["obs"], si))
                 # call / get_attr / set_attr / render: result i belongs to sub-environment i
                 calls = {"render": jsonable(ve.render()), "echo": jsonable(ve.call("echo", 5, k=6))}
-                ve.set_attr("marker", [10 + 3 * i for i in range(N)])
+                mvals = [10 + 3 * i for i in range(N)]
+                ve.set_attr("marker", mvals)
+                if mvals != [10 + 3 * i for i in range(N)]:
+                    obs_out["args_modified"].append("set_attr:values")
                 calls["marker_list"] = jsonable(ve.get_attr("marker"))
                 ve.set_attr("marker", (20 - i for i in range(N)) if False else tuple(20 - i for i in range(N)))
                 calls["marker_tuple"] = jsonable(ve.get_attr("marker"))
@@ -482,24 +606,33 @@ class C12(vlib.Driver):
                 if canon_vobs(kind, o) != canon:
                     obs_out["stale"].append(si)
         finally:
-            try:
-                ve.close(terminate=obs_out["error"] is not None)
-            except Exception:
-                for p in getattr(ve, "processes", []):
-                    if p.is_alive():
-                        p.terminate()
+            for v_ in (ve, shadow):
+                if v_ is None:
+                    continue
+                try:
+                    v_.close(terminate=obs_out["error"] is not None)
+                except Exception:
+                    for p in getattr(v_, "processes", []):
+                        if p.is_alive():
+                            p.terminate()
         return obs_out
 
     def run_wrap(self, case):
         kind, akind, nag = case["obs"], case["akind"], case["nag"]
         env = PettingZooAutoResetParallelWrapper(ScriptedEnv(**env_params(case, 0, case["env"])))
-        out = {"reset": None, "steps": [], "error": None, "counters": None}
+        out = {"reset": None, "steps": [], "error": None, "counters": None, "midresets": {}, "args_modified": []}
         try:
             o, inf = env.reset(seed=case["seed"], options=options_of(case))
             out["reset"] = {"obs": canon_single(kind, o), "info": canon_sinfo(inf)}
-            for step in case["actions"]:
+            for si, step in enumerate(case["actions"]):
+                for mr in midresets(case, si):
+                    o, inf = env.reset(seed=mr["seed"], options=opts_of(mr.get("opt")))
+                    out["midresets"].setdefault(str(si), []).append({"obs": canon_single(kind, o), "info": canon_sinfo(inf)})
                 acts = {f"agent_{a}": act_value(akind, step[a]) for a in aorder(case)}
+                asnap = snapshot(acts)
                 o, r, te, tr, inf = env.step(acts)
+                if not unchanged(acts, asnap):
+                    out["args_modified"].append(f"step@{si}:actions")
                 out["steps"].append({"obs": canon_single(kind, o), "rew": canon_sdict(r, to_int),
                                      "term": canon_sdict(te, bool), "trunc": canon_sdict(tr, bool),
                                      "info": canon_sinfo(inf)})
@@ -522,29 +655,31 @@ class C12(vlib.Driver):
             agents = cnats(range(nag))
             Es = cl(cenv(case, i, e) for i, e in enumerate(case["envs"]))
             rs = obs["reset"]
-            steps = []
-            for step, rec in zip(case["actions"], obs["steps"]):
+            evs = [f"OEReset {cseedspec(case['seed'])} {cseed(case.get('opt'))} ({cvobs(rs['obs'])}, {cvinfo(rs['info'])})"]
+            for si, (step, rec) in enumerate(zip(case["actions"], obs["steps"])):
+                for mr, mrec in zip(midresets(case, si), obs["midresets"].get(str(si), [])):
+                    evs.append(f"OEReset {cseedspec(mr['seed'])} {cseed(mr.get('opt'))} ({cvobs(mrec['obs'])}, {cvinfo(mrec['info'])})")
                 acts = cdict([(a, step[a]) for a in aorder(case)], czs)
                 ost = (f"({cvobs(rec['obs'])}, {cdict([(a, v) for a, v, _ in rec['rew']], czs)}, "
                        f"{cdict([(a, v) for a, v, _ in rec['term']], cbs)}, {cdict([(a, v) for a, v, _ in rec['trunc']], cbs)}, "
                        f"{cvinfo(rec['info'])})")
-                steps.append(f"({acts}, {ost})")
+                evs.append(f"OEStep {acts} {ost}")
             counters = cl(f"({c[0]}, {c[1]})" for c in obs["counters"])
-            return (f"check_vec {k} {agents} {Es} {cseedspec(case['seed'])} {cseed(case.get('opt'))} ({cvobs(rs['obs'])}, {cvinfo(rs['info'])}) "
-                    f"{cl(steps)} {counters}")
+            return f"check_vec_events {k} {agents} {Es} {cl(evs)} {counters}"
         nag = case["nag"]
         E = cenv(case, 0, case["env"])
         cobs = lambda o: cdict(o, lambda ms: cl(czs(m) for m in ms))
         cinfo = lambda i: cdict(i, lambda kv: cl(f"({k_}, {coq_Z(v)})" for k_, v in kv))
-        steps = []
-        for step, rec in zip(case["actions"], obs["steps"]):
+        evs = [f"OWReset ({cseed(case['seed'])}, {cseed(case.get('opt'))}) ({cobs(obs['reset']['obs'])}, {cinfo(obs['reset']['info'])})"]
+        for si, (step, rec) in enumerate(zip(case["actions"], obs["steps"])):
+            for mr, mrec in zip(midresets(case, si), obs["midresets"].get(str(si), [])):
+                evs.append(f"OWReset ({cseed(mr['seed'])}, {cseed(mr.get('opt'))}) ({cobs(mrec['obs'])}, {cinfo(mrec['info'])})")
             tr = (f"{{| tobs := {cobs(rec['obs'])}; trew := {cdict(rec['rew'], coq_Z)}; "
                   f"tterm := {cdict(rec['term'], lambda b: 'true' if b else 'false')}; "
                   f"ttrunc := {cdict(rec['trunc'], lambda b: 'true' if b else 'false')}; tinfo := {cinfo(rec['info'])} |}}")
-            steps.append(f"({czs(step)}, {tr})")
+            evs.append(f"OWStep {czs(step)} {tr}")
         c = obs["counters"]
-        return (f"check_wrapper {E} ({cseed(case['seed'])}, {cseed(case.get('opt'))}) ({cobs(obs['reset']['obs'])}, {cinfo(obs['reset']['info'])}) "
-                f"{cl(steps)} ({c[0]}, {c[1]})")
+        return f"check_wrapper_events {E} {cl(evs)} ({c[0]}, {c[1]})"
 
     # ---------- oracle: the property stated directly on the implementation's behaviour
     def oracle(self, case, obs):
@@ -622,34 +757,50 @@ class C12(vlib.Driver):
                 sig = "vec:unaligned-dicts:" + clause
                 detail += " [this sub-environment lists the agents of its truncation dict in another order]"
             return Violation(clause, sig, detail)
+        def check_reset(rs, label):
+            """what a reset(seed, options) call returned vs the references (already reset with the same arguments)"""
+            for i, ref in enumerate(refs):
+                got, bad = rows(rs["obs"], i)
+                if bad:
+                    return [Violation("shape-dtype", f"vec:shape-dtype:{site}", f"{label}: {bad[0]}")]
+                for a in range(nag):
+                    if f"agent_{a}" not in ref.obs:      # joins later: placeholder observation, empty info
+                        if got.get(a) != [placeholder(sp) for sp in mspaces] or info_at(rs["info"], a, i) or extra_at(rs["info"], a, i):
+                            return [Violation("reset-obs", f"vec:reset-obs:late-joiner",
+                                              f"{label}: env {i} agent {a} is not alive yet: got {got.get(a)} / {info_at(rs['info'], a, i)}, expected the placeholder and no info")]
+                        continue
+                    want = self._flat(kind, ref.obs[f"agent_{a}"])
+                    if got.get(a) != want:
+                        return [Violation("reset-obs", f"vec:reset-obs:{site}",
+                                          f"{label}: env {i} agent {a} observation {got.get(a)}, alone it returns {want}")]
+                    wi = info_want(ref.info[f"agent_{a}"])
+                    we = c12_flatten(ref.info[f"agent_{a}"])
+                    if extra_at(rs["info"], a, i) != we:
+                        return [Violation("reset-info", "vec:reset-info:values",
+                                          f"{label}: env {i} agent {a} info values {extra_at(rs['info'], a, i)}, alone {we}")]
+                    if info_at(rs["info"], a, i) != wi:
+                        return [Violation("reset-info", "vec:reset-info",
+                                          f"{label}: env {i} agent {a} info {info_at(rs['info'], a, i)}, alone {wi}")]
+            if rs["info"]["unknown"]:
+                return [Violation("info", "vec:info-keys", f"unexpected info keys {rs['info']['unknown']}")]
+            return []
+
         # reset
-        rs = obs["reset"]
-        for i, ref in enumerate(refs):
-            got, bad = rows(rs["obs"], i)
-            if bad:
-                return [Violation("shape-dtype", f"vec:shape-dtype:{site}", f"reset: {bad[0]}")]
-            for a in range(nag):
-                if f"agent_{a}" not in ref.obs:      # joins later: placeholder observation, empty info
-                    if got.get(a) != [placeholder(sp) for sp in mspaces] or info_at(rs["info"], a, i) or extra_at(rs["info"], a, i):
-                        return [Violation("reset-obs", f"vec:reset-obs:late-joiner",
-                                          f"reset: env {i} agent {a} is not alive yet: got {got.get(a)} / {info_at(rs['info'], a, i)}, expected the placeholder and no info")]
-                    continue
-                want = self._flat(kind, ref.obs[f"agent_{a}"])
-                if got.get(a) != want:
-                    return [Violation("reset-obs", f"vec:reset-obs:{site}",
-                                      f"reset(seed={case['seed']}): env {i} agent {a} observation {got.get(a)}, alone it returns {want}")]
-                wi = info_want(ref.info[f"agent_{a}"])
-                we = c12_flatten(ref.info[f"agent_{a}"])
-                if extra_at(rs["info"], a, i) != we:
-                    return [Violation("reset-info", "vec:reset-info:values",
-                                      f"reset: env {i} agent {a} info values {extra_at(rs['info'], a, i)}, alone {we}")]
-                if info_at(rs["info"], a, i) != wi:
-                    return [Violation("reset-info", "vec:reset-info",
-                                      f"reset: env {i} agent {a} info {info_at(rs['info'], a, i)}, alone {wi}")]
-        if rs["info"]["unknown"]:
-            return [Violation("info", "vec:info-keys", f"unexpected info keys {rs['info']['unknown']}")]
+        v = check_reset(obs["reset"], f"reset(seed={case['seed']}, options={options_of(case)})")
+        if v:
+            return v
         # steps
         for si, (step, rec) in enumerate(zip(case["actions"], obs["steps"])):
+            mrecs = obs.get("midresets", {}).get(str(si), [])
+            if len(mrecs) != len(midresets(case, si)):
+                return [Violation("reset", "vec:mid-reset-missing", f"step {si}: {len(mrecs)} reset results recorded")]
+            for mr, mrec in zip(midresets(case, si), mrecs):
+                for i, ref in enumerate(refs):
+                    ref.reset(seed_at(mr["seed"], i), opts_of(mr.get("opt")))
+                v = check_reset(mrec, f"reset(seed={mr['seed']}, options={opts_of(mr.get('opt'))}) before step {si}")
+                if v:
+                    v[0].signature = v[0].signature.replace("vec:reset", "vec:mid-reset", 1)
+                    return v
             for i, ref in enumerate(refs):
                 acts = {f"agent_{a}": act_value(akind, step[a][i]) for a in range(nag)}
                 o, r, te, tr, inf, was_reset = ref.step(acts)
@@ -688,6 +839,18 @@ class C12(vlib.Driver):
                                   f"{where} agent {a}: info {info_at(rec['info'], a, i)}, alone {wi}")]
             if rec["info"]["unknown"]:
                 return [Violation("info", "vec:info-keys", f"unexpected info keys {rec['info']['unknown']}")]
+        # rejected calls must raise and change nothing (what follows them was compared above)
+        for si, got in (obs.get("bad_calls") or {}).items():
+            want = ["AssertionError", "KeyError" if nag > 1 else "AssertionError"]
+            if got != want:
+                out.append(Violation("bad-call", "vec:bad-call", f"before step {si}: malformed step() calls gave {got}, expected {want}"))
+                break
+        # the caller's objects are the caller's
+        if obs.get("args_modified"):
+            out.append(Violation("arguments", "vec:arguments-modified:" + obs["args_modified"][0].split(":")[-1],
+                                 f"the vector environment changed objects handed in by the caller: {obs['args_modified']}"))
+        if case.get("shadow") and obs.get("shadow") != "closed":
+            out.append(Violation("shadow", "vec:second-env", "a second vector environment could not be stepped and closed alongside"))
         # call / get_attr / set_attr / render: result i is sub-environment i's
         c = obs.get("calls")
         if c is not None:
@@ -728,7 +891,13 @@ class C12(vlib.Driver):
         ref = Reference(env_params(case, 0, case["env"]), case["seed"], options_of(case))
         if obs["reset"]["obs"] != canon_single(kind, ref.obs) or obs["reset"]["info"] != canon_sinfo(ref.info):
             return [Violation("reset", "wrap:reset", f"reset returned {obs['reset']}")]
+        if obs.get("args_modified"):
+            return [Violation("arguments", "wrap:arguments-modified", f"the wrapper changed the caller's action dict: {obs['args_modified']}")]
         for si, (step, rec) in enumerate(zip(case["actions"], obs["steps"])):
+            for mr, mrec in zip(midresets(case, si), obs.get("midresets", {}).get(str(si), [])):
+                ro, ri = ref.reset(mr["seed"], opts_of(mr.get("opt")))
+                if mrec["obs"] != canon_single(kind, ro) or mrec["info"] != canon_sinfo(ri):
+                    return [Violation("reset", "wrap:mid-reset", f"reset before step {si} returned {mrec}")]
             acts = {f"agent_{a}": act_value(akind, step[a]) for a in range(nag)}
             o, r, te, tr, inf, was_reset = ref.step(acts)
             want = {"obs": canon_single(kind, o), "rew": canon_sdict(r, to_int), "term": canon_sdict(te, bool),
@@ -753,7 +922,10 @@ class C12(vlib.Driver):
             envs, N = [case["env"]], 1
         refs = [Reference(env_params(case, i, e), None) for i, e in enumerate(envs)]
         n_reset, inter, absent, plain = 0, False, False, False
-        for step in case["actions"]:
+        for si_, step in enumerate(case["actions"]):
+            for mr in midresets(case, si_):
+                for ref in refs:
+                    ref.reset(None)
             flags = []
             for i, ref in enumerate(refs):
                 if case["kind"] == "vec":
@@ -794,6 +966,21 @@ class C12(vlib.Driver):
             labs.append("unaligned-dicts")
         if case.get("rich_info"):
             labs.append("info-values=all-kinds")
+        if case.get("midresets"):
+            labs.append("history:explicit-reset-mid-run")
+            if any(len(v) > 1 for v in case["midresets"].values()):
+                labs.append("history:two-resets-in-a-row")
+        if case.get("bad_calls"):
+            labs.append("history:rejected-call-then-further-use")
+        if case.get("shadow"):
+            labs.append("second-vector-env-alongside")
+        if case.get("mixed_types"):
+            labs.append("value-types=mixed-python-numpy")
+        for lay in sorted({e.get("layout", "C") for e in envs}):
+            labs.append(f"obs-layout={lay}")
+        big_ = lambda x: isinstance(x, int) and x > 2 ** 24 or isinstance(x, list) and any(y > 2 ** 24 for y in x)
+        if big_(case["seed"]) or any(big_(m.get("seed")) for v in (case.get("midresets") or {}).values() for m in v):
+            labs.append("values-beyond-float32")
         if any(e.get("reversed_out") for e in envs):
             labs.append("env-dicts-reversed")
         labs.append("action-dict=" + ("agents-order" if aorder(case) == list(range(case["nag"])) else "permuted"))
